@@ -477,3 +477,21 @@ impl MatchableTrait for Bracketed {
         self.this.cache_key()
     }
 }
+
+/// Verification hooks (only with `--cfg sqruff_verif`): read-only accessors.
+#[cfg(sqruff_verif)]
+impl Sequence {
+    pub fn verif_elements(&self) -> &[Matchable] {
+        &self.elements
+    }
+    pub fn verif_cache_key(&self) -> MatchableCacheKey {
+        self.cache_key
+    }
+}
+
+#[cfg(sqruff_verif)]
+impl Bracketed {
+    pub fn verif_allow_gaps(&self) -> bool {
+        self.allow_gaps
+    }
+}
